@@ -30,9 +30,9 @@ def catalogue():
     return _catalogue
 
 
-def request(files, render):
+def request(files, render, spanmon=False):
     return {"op": "alpha_compile", "files": [{"path": p, "src": s} for p, s in files], "ir": True, "module_ir": True,
-            "render": render}
+            "render": render, "spanmon": spanmon}
 
 
 def digest(kind, r):
@@ -155,6 +155,16 @@ def run_case(case):
                 what = "rendered diagnostic text"
         problems.append(("repeated compilation in fresh processes gives a different %s" % what,
                          {"digests": [repr(d)[:300] for d in digests]}))
+    # location monitor over the parsed tree (separate request: it stops at the first bad location)
+    resp, crash = ws[0].request(request(files, render=False, spanmon=True), timeout=60)
+    if crash is None and resp.get("status") == "spanmon":
+        bad = resp.get("bad") or [{}]
+        backwards = [b for b in bad if b.get("start", 0) > b.get("end", 0)]
+        problems.append(("syntax tree node carries a location whose start is after its end" if backwards else
+                         "syntax tree node carries a location that ends %d past the end of the source" % (bad[0].get("end", 0) - bad[0].get("chars", 0)),
+                         bad))
+    elif crash is None:
+        cov["tree_locations_checked"] = resp.get("spans_checked", 0)
     kind, r = results[0]
     if kind == "resp":
         diags = list(r.get("errors") or []) + list(r.get("lints") or [])
